@@ -138,6 +138,64 @@ def gen_rr(ctx):
     return cases
 
 
+def rr_predicates(ctx, m, M, K, xi, beta, worst):
+    """the phase-split part of the property on ONE real output of dbm.gas_liq_eq"""
+    case = {'m': list(m), 'M': list(M), 'K': list(K)}
+    n = len(K)
+    moles = np.array(m) / np.array(M)
+    z = moles / np.sum(moles)
+    Ka = np.array(K)
+    if not (np.all(np.isfinite(xi)) and math.isfinite(beta)):
+        # by construction only for K_i = 1 with z_i = 1 hidden behind condition (4): never reached (see notes)
+        ctx.violation('gas_liq_eq-non-finite', 'dbm.gas_liq_eq returned a non-finite value for positive K', dict(case, beta=beta, xi=xi.tolist()))
+        return
+    if not (0. <= beta <= 1.):
+        ctx.violation('beta-out-of-[0,1]', 'gas fraction outside [0,1]', dict(case, beta=beta))
+    d = 1. + beta * (Ka - 1.)
+    if not np.all(d > 0.):
+        ctx.violation('rr-denominator-not-positive', 'a denominator 1 + beta (K_i - 1) is not positive', dict(case, beta=beta))
+        return
+    for j in range(n):
+        if not close(float(xi[0, j]), float(Ka[j] * xi[1, j]), TOL['identity']):
+            ctx.violation('xgas-ne-K-xliq', 'x_gas,i differs from K_i x_liq,i', dict(case, beta=beta, i=j, x_gas=float(xi[0, j]), x_liq=float(xi[1, j])))
+            break
+        lhs = beta * xi[0, j] + (1. - beta) * xi[1, j]
+        if not abs(lhs - z[j]) <= TOL['identity'] * (abs(beta * xi[0, j]) + abs((1. - beta) * xi[1, j]) + abs(z[j])) + 1e-300:
+            ctx.violation('material-balance', 'beta x_gas,i + (1-beta) x_liq,i differs from z_i', dict(case, beta=beta, i=j, lhs=float(lhs), z=float(z[j])))
+            break
+    if np.any(xi < 0.) or np.any(xi > 1. + 1e-12):
+        ctx.violation('mole-fraction-out-of-range', 'a mole fraction of the phase split is outside [0,1]', dict(case, beta=beta, xi=xi.tolist()))
+    terms = z * (Ka - 1.) / d
+    g = float(np.sum(terms))
+    sc = float(np.sum(np.abs(terms))) + 1.
+    gp = float(np.sum(z * (Ka - 1.) ** 2 / d ** 2))
+    sl, sg = float(np.sum(xi[1])), float(np.sum(xi[0]))
+    # the proved identities  sum x_liq = 1 - beta g,  sum x_gas = 1 + (1 - beta) g  on the real rows
+    if not (abs(sl - (1. - beta * g)) <= TOL['identity'] * sc * n and abs(sg - (1. + (1. - beta) * g)) <= TOL['identity'] * sc * n * max(1., float(np.max(Ka)))):
+        ctx.violation('row-sum-identity', 'row sums differ from 1 - beta g / 1 + (1-beta) g', dict(case, beta=beta, g=g, sum_liq=sl, sum_gas=sg))
+    if beta == 0.:
+        if not abs(sl - 1.) <= TOL['identity'] * n:
+            ctx.violation('present-phase-sum', 'liquid row does not sum to one at beta = 0', dict(case, sum_liq=sl))
+    elif beta == 1.:
+        if not abs(sg - 1.) <= TOL['identity'] * n:
+            ctx.violation('present-phase-sum', 'gas row does not sum to one at beta = 1', dict(case, sum_gas=sg))
+    else:
+        # TEST (not a theorem): the loop left a residual compatible with its own tolerance on beta
+        dev = max(abs(sl - 1.), abs(sg - 1.))
+        worst['sum_dev_over_gp'] = max(worst['sum_dev_over_gp'], dev / max(1., gp))
+        if not dev <= 2. * TOL['rr_beta'] * max(1., gp):
+            ctx.violation('rr-not-converged-sum', 'two-phase rows deviate from one by more than the Rachford-Rice tolerance allows',
+                          dict(case, beta=beta, sum_liq=sl, sum_gas=sg, g=g, gp=gp))
+
+        def gg(b):
+            dd = 1. + b * (Ka - 1.)
+            return float(np.sum(z * (Ka - 1.) / dd))
+        lo, hi = max(beta - TOL['rr_beta'], 0.), min(beta + TOL['rr_beta'], 1.)
+        if not (gg(lo) >= -1e-12 * sc and gg(hi) <= 1e-12 * sc):
+            ctx.violation('rr-root-not-bracketed', 'the Rachford-Rice root is not within 1e-8 of the returned beta',
+                          dict(case, beta=beta, g_lo=gg(lo), g_hi=gg(hi)))
+
+
 def run_rr(ctx, lean_ok, dbm):
     cases = gen_rr(ctx)
     real = []
@@ -194,59 +252,7 @@ def run_rr(ctx, lean_ok, dbm):
                 if nbad <= 3:
                     ctx.broken.append(('correspondence', 'Model.Flash.gasLiqEq vs dbm.gas_liq_eq',
                                        'm=%r M=%r K=%r code=(%r, %r, trace %r) model=%r' % (m, M, K, xi.tolist(), beta, tr, o)))
-        # ---- property predicates on the REAL output ------------------------------------------------
-        moles = np.array(m) / np.array(M)
-        z = moles / np.sum(moles)
-        Ka = np.array(K)
-        if not (np.all(np.isfinite(xi)) and math.isfinite(beta)):
-            # by construction only for K_i = 1 with z_i = 1 hidden behind condition (4): never reached (see notes)
-            ctx.violation('gas_liq_eq-non-finite', 'dbm.gas_liq_eq returned a non-finite value for positive K', dict(case, beta=beta, xi=xi.tolist()))
-            continue
-        if not (0. <= beta <= 1.):
-            ctx.violation('beta-out-of-[0,1]', 'gas fraction outside [0,1]', dict(case, beta=beta))
-        d = 1. + beta * (Ka - 1.)
-        if not np.all(d > 0.):
-            ctx.violation('rr-denominator-not-positive', 'a denominator 1 + beta (K_i - 1) is not positive', dict(case, beta=beta))
-            continue
-        for j in range(n):
-            if not close(float(xi[0, j]), float(Ka[j] * xi[1, j]), TOL['identity']):
-                ctx.violation('xgas-ne-K-xliq', 'x_gas,i differs from K_i x_liq,i', dict(case, beta=beta, i=j, x_gas=float(xi[0, j]), x_liq=float(xi[1, j])))
-                break
-            lhs = beta * xi[0, j] + (1. - beta) * xi[1, j]
-            if not abs(lhs - z[j]) <= TOL['identity'] * (abs(beta * xi[0, j]) + abs((1. - beta) * xi[1, j]) + abs(z[j])) + 1e-300:
-                ctx.violation('material-balance', 'beta x_gas,i + (1-beta) x_liq,i differs from z_i', dict(case, beta=beta, i=j, lhs=float(lhs), z=float(z[j])))
-                break
-        if np.any(xi < 0.) or np.any(xi > 1. + 1e-12):
-            ctx.violation('mole-fraction-out-of-range', 'a mole fraction of the phase split is outside [0,1]', dict(case, beta=beta, xi=xi.tolist()))
-        terms = z * (Ka - 1.) / d
-        g = float(np.sum(terms))
-        sc = float(np.sum(np.abs(terms))) + 1.
-        gp = float(np.sum(z * (Ka - 1.) ** 2 / d ** 2))
-        sl, sg = float(np.sum(xi[1])), float(np.sum(xi[0]))
-        # the proved identities  sum x_liq = 1 - beta g,  sum x_gas = 1 + (1 - beta) g  on the real rows
-        if not (abs(sl - (1. - beta * g)) <= TOL['identity'] * sc * n and abs(sg - (1. + (1. - beta) * g)) <= TOL['identity'] * sc * n * max(1., float(np.max(Ka)))):
-            ctx.violation('row-sum-identity', 'row sums differ from 1 - beta g / 1 + (1-beta) g', dict(case, beta=beta, g=g, sum_liq=sl, sum_gas=sg))
-        if beta == 0.:
-            if not abs(sl - 1.) <= TOL['identity'] * n:
-                ctx.violation('present-phase-sum', 'liquid row does not sum to one at beta = 0', dict(case, sum_liq=sl))
-        elif beta == 1.:
-            if not abs(sg - 1.) <= TOL['identity'] * n:
-                ctx.violation('present-phase-sum', 'gas row does not sum to one at beta = 1', dict(case, sum_gas=sg))
-        else:
-            # TEST (not a theorem): the loop left a residual compatible with its own tolerance on beta
-            dev = max(abs(sl - 1.), abs(sg - 1.))
-            worst['sum_dev_over_gp'] = max(worst['sum_dev_over_gp'], dev / max(1., gp))
-            if not dev <= 2. * TOL['rr_beta'] * max(1., gp):
-                ctx.violation('rr-not-converged-sum', 'two-phase rows deviate from one by more than the Rachford-Rice tolerance allows',
-                              dict(case, beta=beta, sum_liq=sl, sum_gas=sg, g=g, gp=gp))
-
-            def gg(b):
-                dd = 1. + b * (Ka - 1.)
-                return float(np.sum(z * (Ka - 1.) / dd))
-            lo, hi = max(beta - TOL['rr_beta'], 0.), min(beta + TOL['rr_beta'], 1.)
-            if not (gg(lo) >= -1e-12 * sc and gg(hi) <= 1e-12 * sc):
-                ctx.violation('rr-root-not-bracketed', 'the Rachford-Rice root is not within 1e-8 of the returned beta',
-                              dict(case, beta=beta, g_lo=gg(lo), g_hi=gg(hi)))
+        rr_predicates(ctx, m, M, K, xi, beta, worst)
     if out is not None:
         ctx.oblige('correspondence Model.Flash.gasLiqEq == dbm.gas_liq_eq (beta, rows, per-pass increments, pass count) on %d cases (rel %g)'
                    % (len(cases), TOL['gen_vs_source']), nbad == 0, '%d disagreements' % nbad)
@@ -473,7 +479,7 @@ def eval_feed(job):
 
 def gen_feeds(ctx):
     r = ctx.rng
-    n = ctx.n(700, 6000)
+    n = ctx.n(1000, 6000)
     jobs = []
     # pure compounds (single-component feeds are a fixed share: they exercise both clean-up branches)
     pool = scen_mix.nonaqueous(EXCLUDE)
@@ -973,6 +979,37 @@ def run_targeted(ctx, dbm):
     for x in res:
         k = check_feed(ctx, x, lines, owner)
         ctx.count('targeted:boundary:' + str(k))
+
+
+def replay(ctx, path):
+    """./check C02 --replay <file>: re-evaluate the stored failing input on the real code; exit 1 if it still fails"""
+    import json
+    warnings.simplefilter('ignore')
+    from tamoc import dbm
+    d = json.load(open(path))
+    case = d.get('case') or {}
+    if 'composition' in case:
+        job = {k: case.get(k) for k in ('composition', 'm', 'T', 'P', 'K0')}
+        res = eval_feed((job, 600., 0))
+        check_feed(ctx, res, [], [])
+        if res['status'] == 'ok':
+            print('masses=%r\nxi=%r\nK=%r' % (res['mm'], res['xi'], res['K']))
+        else:
+            print('status=%s' % res['status'])
+    elif 'K' in case and 'M' in case:
+        with np.errstate(all='ignore'):
+            xi, beta = dbm.gas_liq_eq(np.array(case['m']), np.array(case['M']), np.array(case['K']))
+        print('beta=%r rows=%r' % (beta, np.asarray(xi).tolist()))
+        rr_predicates(ctx, case['m'], case['M'], case['K'], np.asarray(xi, dtype=float), float(beta),
+                      {'beta': 0., 'rows': 0., 'trace': 0., 'sum_dev_over_gp': 0., 'passes': 0})
+    else:
+        print('replay file names no input (broken obligation without failing input): %r' % d.get('broken_obligations'))
+        return 1
+    for v in ctx.violations:
+        print('REPRODUCED key=%s %s' % (v['key'], v['what']))
+    if not ctx.violations:
+        print('not reproduced: the stored input satisfies the property predicates now')
+    return 1 if ctx.violations else 0
 
 
 def run(ctx, lean_ok):
